@@ -8,7 +8,7 @@
     the model: a small bookkeeping automaton derives from the operations (and from what the
     service module did, seen from outside) WHEN each request has to be fulfilled, and the
     clauses below are checked against the query results. *)
-From Irismod Require Export Random.Model.
+From Irismod Require Export Random.Spec.
 
 (** what the service module did in a step, seen from outside the random keeper *)
 Inductive svcfact :=
@@ -86,7 +86,8 @@ Definition set_status (it : pitem) (st : pstatus) : pitem := mkItem (i_rid it) (
     1 not fulfilled in the block following height+interval   2 a result exists although none is due (early / never)
     3 a result read back differs from the first read         4 value is not "0." followed by 20 decimal digits
     5 pending queue differs from the requests not yet due    6 equal (app hash, time, requester, seed) gave different values
-    7 oracle: not fulfilled when the seed response arrived   8 oracle: state kept / result produced after failure or timeout *)
+    7 oracle: not fulfilled when the seed response arrived   8 oracle: state kept / result produced after failure or timeout
+    9 what the queries show differs from the proven life cycle ([Spec.v], theorem request_life_cycle) *)
 
 (** transitions; returns the new items and a clause code (0 = fine) *)
 Definition fulfil (p : pst) (o : obs) (it : pitem) (t a : Z) (seed : option Z) (missing : Z) : pitem * Z :=
@@ -182,6 +183,73 @@ Definition dep_code (p : pst) : Z :=
                      (p_items p) in
   if dep_ok ks then 0 else 6.
 
+(** ** the proven life cycle, evaluated on the implementation's observations
+
+    Every accepted request is followed by the automaton of [Spec.v] - the one
+    [request_life_cycle] (Props/C18.v) proves of the model for every history - fed with the
+    block headers and the callbacks the implementation received; after every step what the
+    implementation's queries show must be what the phase shows ([view_ok], proved of the
+    model's own state as [model_views_ok] in Proofs.v).  The hypotheses of the theorem are
+    checked on the way: an item is followed only while its requester has asked at most once per
+    block, no block had time 0, and its service context was given to no other request. *)
+Record titem := mkT { t_r0 : request; t_d : Z; t_ph : phase; t_live : bool }.
+
+Record tstate := mkTS {
+  ts_items : list titem;
+  ts_used : list Z;     (* requesters of well-formed requests in the current block *)
+  ts_bad : list Z;      (* requesters that asked twice in some block *)
+  ts_ok : bool          (* no block with unix time 0 so far *)
+}.
+
+Definition tinit : tstate := mkTS [] [] [] true.
+
+Definition obs_pending (o : obs) (id : rid) : list Z :=
+  map (fun e => fst (fst e)) (filter (fun e => eqb (snd (fst e)) id) (o_queue o)).
+
+Definition view_ok (r0 : request) (d : Z) (ph : phase) (o : obs) : bool :=
+  let id := req_id r0 in
+  eqb (obs_pending o id) (view_pending d ph)
+  && eqb (get id (o_reads o)) (Some (option_map show_result (view_result ph)))
+  && match ph with
+     | Started => eqb (get (q_ctx r0) (o_oracle o)) (Some (Some r0))
+     | _ => forallb (fun e => match snd e with Some r => negb (eqb (req_id r) id) | None => true end) (o_oracle o)
+     end.
+
+Definition kill (it : titem) : titem := mkT (t_r0 it) (t_d it) (t_ph it) false.
+Definition kill_if (f : titem -> bool) (l : list titem) : list titem :=
+  map (fun it => if f it then kill it else it) l.
+
+(** new tracker state and clause code (0 or 9); [s] = model state before the step, [agree] =
+    model and implementation agree on the outcome, which is not an abort *)
+Definition track_step (sha : hin -> Z) (s : state) (ts : tstate) (st : step) (agree accepted : bool) (o : obs)
+  : tstate * Z :=
+  if negb agree then (mkTS (kill_if (fun _ => true) (ts_items ts)) (ts_used ts) (ts_bad ts) false, 0) else
+  let adv := map (fun it => mkT (t_r0 it) (t_d it) (spec_step sha (t_r0 it) (t_d it) s (t_ph it) st) (t_live it))
+                 (ts_items ts) in
+  let ts' :=
+    match st with
+    | Req c n orc capok txh svc =>
+        if req_ok c capok orc svc then
+          let dup := memb c (ts_used ts) in
+          let bad := if dup then c :: ts_bad ts else ts_bad ts in
+          let items := if dup then kill_if (fun it => q_consumer (t_r0 it) =? c) adv else adv in
+          let r0 := new_req s c txh orc svc in
+          let clash := orc && existsb (fun it => q_oracle (t_r0 it) && (q_ctx (t_r0 it) =? q_ctx r0)) items in
+          let items := if clash then kill_if (fun it => q_oracle (t_r0 it) && (q_ctx (t_r0 it) =? q_ctx r0)) items
+                       else items in
+          let items := if accepted
+                       then items ++ [mkT r0 (height s + n) Pending
+                                          (ts_ok ts && negb (memb c bad) && negb clash && (0 <=? n) && (height s + n <? two63))]
+                       else items in
+          mkTS items (c :: ts_used ts) bad (ts_ok ts)
+        else mkTS adv (ts_used ts) (ts_bad ts) (ts_ok ts)
+    | Begin t _ _ =>
+        if t =? 0 then mkTS (kill_if (fun _ => true) adv) [] (ts_bad ts) false
+        else mkTS adv [] (ts_bad ts) (ts_ok ts)
+    | Calls _ => mkTS adv (ts_used ts) (ts_bad ts) (ts_ok ts)
+    end in
+  (ts', if forallb (fun it => negb (t_live it) || view_ok (t_r0 it) (t_d it) (t_ph it) o) (ts_items ts') then 0 else 9).
+
 (** one step of the property check: new bookkeeping, clause code (0 = holds), halted *)
 Definition prop_step (p : pst) (st : step) (o : obs) : pst * Z * bool :=
   if o_code o =? 2 then (p, 0, true) else
@@ -194,7 +262,7 @@ Definition prop_step (p : pst) (st : step) (o : obs) : pst * Z * bool :=
   let c2 := first_code (map (item_code p1 o) (p_items p1)) in
   (p1, first_code [c1; c2; queue_code p1 o; dep_code p1], false).
 
-Fixpoint check_from (sha : hin -> Z) (s : state) (p : pst) (c : list (step * obs)) (i : Z)
+Fixpoint check_from (sha : hin -> Z) (s : state) (p : pst) (ts : tstate) (c : list (step * obs)) (i : Z)
          (corr prop code : Z) (halted : bool) : Z * Z * Z :=
   match c with
   | [] => (corr, prop, code)
@@ -202,14 +270,21 @@ Fixpoint check_from (sha : hin -> Z) (s : state) (p : pst) (c : list (step * obs
       if halted then (corr, prop, code) else
       let '(out, s', _) := exec_step sha s st in
       let corr' := if (corr <? 0) && negb (corr_step out s' st o) then i else corr in
-      let '(p', pc, h1) := prop_step p st o in
+      let '(p', pc1, h1) := prop_step p st o in
+      let agree := match st, o_code o with
+                   | Calls [], 1 => true      (* a rejected foreign tx: no callback, nothing changes *)
+                   | _, _ => (o_code o =? outcome_code out) && negb (o_code o =? 2)
+                   end in
+      let accepted := match out with Ok => true | _ => false end in
+      let '(ts', pc2) := track_step sha s ts st agree accepted o in
+      let pc := if pc1 =? 0 then pc2 else pc1 in
       let fresh := (prop <? 0) && negb (pc =? 0) in
       let h2 := match out with Abort => true | _ => false end in
-      check_from sha s' p' rest (i + 1) corr' (if fresh then i else prop) (if fresh then pc else code) (h1 || h2)
+      check_from sha s' p' ts' rest (i + 1) corr' (if fresh then i else prop) (if fresh then pc else code) (h1 || h2)
   end.
 
 (** (index of the first diverging step or -1, index of the first step violating C18 or -1,
     violated clause) *)
 Definition check_case (c : case) : Z * Z * Z :=
   let '(tbl, steps) := c in
-  check_from (table_sha tbl) init pinit steps 0 (-1) (-1) 0 false.
+  check_from (table_sha tbl) init pinit tinit steps 0 (-1) (-1) 0 false.
